@@ -1,4 +1,5 @@
 #!/bin/bash
+export VERIF_EVIDENCE_DIR=/verif/build/evidence-scratch   # never overwrite the real evidence with runs on patched trees
 # tools/run_seeded.sh [id ...]: apply each seeded change to /repo, run the check of its property, undo. Self-test only.
 cd /verif
 ids="$@"; [ -z "$ids" ] && ids=$(ls seeded)
